@@ -20,6 +20,7 @@ RULE = (
     "monitor applies the pairs the way the replacement solver does: a SolverReplacement(SolverVSA) that was given "
     "the constraint must keep every satisfying value of each variable in eval/min/max.  Non-trivial: at least one "
     "pair was returned or the flag was False; distinct by descriptor hash."
+    " Session 4: byte-reversed operands at 16 bits (all 65536 assignments), Not(And/Or) shapes."
 )
 ASSUMPTIONS = [
     "an SI annotation declares the variable's range (assignments outside it are not models)",
